@@ -1,7 +1,8 @@
 SPECIFICATION Spec
 CONSTANTS NC = 3 NI = 2 Delays = {1} PassTimeouts = {0} Filters = {"all"}
-          Nesting = TRUE ReAdds = 1 ExtFut = FALSE ReapOwnOnly = TRUE LateCancel = TRUE
+          Nesting = TRUE ReAdds = 1 ExtFut = 0 ReapOwnOnly = TRUE LateCancel = TRUE
           HScripts = {"none", "raise", "pop", "add"} CoHandlers = FALSE ClaimFirst = TRUE
+          TMShutdown = FALSE ShutGuard = FALSE NFut = 3 FutLoop = "all"
 INVARIANT TypeOK
 INVARIANT ExactlyOnce
 INVARIANT ClaimedOnce
@@ -12,5 +13,6 @@ INVARIANT LateResponseFindsNothing
 INVARIANT UniqueIdentity
 INVARIANT FuturesCompletedOnTimeout
 INVARIANT AfterShutdown
+INVARIANT AfterFlag
 INVARIANT NoLateTimeout
 INVARIANT EndedIsQuiet
